@@ -703,6 +703,20 @@ Proof.
   - apply (extremum_aoh_kind cmp SKFloat Hc invert attr i els x Haoh HP).
 Qed.
 
+(* a list of ints (nulls allowed): no hypothesis about typed readings is left *)
+Lemma extremum_list_ints : forall cmp invert i els x,
+  cmp = MGt \/ cmp = MLt ->
+  node_is_aoh true (NSeq i els) = false ->
+  (forall v c, In (Some v, c) (map (list_member x) (enumerate els)) -> exists z, v = PInt z) ->
+  exists res,
+    extremum lit re_search node_str cmp invert [] (NSeq i els) x = Ok res /\
+    forall c, In c res <-> selected cmp invert (map (list_member x) (enumerate els)) c.
+Proof.
+  intros cmp invert i els x Hc Haoh HP.
+  apply (extremum_list_kind cmp SKInt Hc invert i els x Haoh).
+  intros v c Hi. destruct (HP v c Hi) as [z ->]. apply int_same_kind.
+Qed.
+
 (* ---------- parent ---------- *)
 Lemma parent_refuses_above_root : forall p z x,
   py_int p = Some z -> (Z.of_nat (List.length (k_ancestry x)) < z)%Z ->
